@@ -32,6 +32,19 @@ theorem seek_refused_iff (s : St) : seek0 s = none ↔ s.cap ≤ s.buf.length :=
   rw [seek0_spec]
   split <;> simp_all
 
+/-- Once a retry has been refused (more than the replay buffer has gone through) it stays refused for the rest of the
+    response, whatever is read or attempted later: a response that outgrew the buffer is never replayed from a
+    partial copy. -/
+theorem refusal_permanent (s : St) (ops : List Op) (h : seek0 s = none) : seek0 (run s ops) = none := by
+  rw [seek_refused_iff] at h ⊢
+  rw [run_cap]
+  exact Nat.le_trans h (run_buf_mono s ops)
+
+/-- the source is consumed strictly forwards: no operation (read, accepted or refused seek) ever drops or re-reads what
+    the backend's response has already handed over -/
+theorem source_history_monotone (s : St) (ops : List Op) : s.hist <+: (run s ops).hist :=
+  run_hist_prefix s ops
+
 /-- … and then everything sent so far can be replayed in full: a retry happens only while
     the already-sent prefix is still held (fewer than `cap` = 4096 bytes were read). -/
 theorem retry_only_if_replayable (cap : Nat) (ops : List Op) (s' : St)
@@ -94,5 +107,8 @@ theorem handler_unblocked_shape :
 -- non-vacuity: a replay across the buffer boundary
 example : (run (init 4) [.read 3 [1,2,3], .seek, .read 2 [], .read 5 [4,5,6]]).sent = [1,2,3,4,5,6] := by decide
 example : seek0 (run (init 4) [.read 3 [1,2,3], .read 3 [4,5]]) = none := by decide
+
+-- non-vacuity: a 4-byte buffer, 5 bytes read: refused now and after further reads and seeks
+example : seek0 (run (init 4) [.read 5 [1, 2, 3, 4, 5]]) = none ∧ seek0 (run (init 4) [.read 5 [1, 2, 3, 4, 5], .seek, .read 1 [6], .seek]) = none := by decide
 
 end InvProxy.C06
